@@ -1,10 +1,12 @@
 /-
   Props/C15.lean — property theorems for C15 (parallel sources split their input exactly once).
   Models: Model/Range.lean (`generate_iterator` of integer ranges, `IteratorSource`), Model/FileSplit.lean
-  (`FileSource::setup/next`). Helper lemmas: Lemmas/Range.lean, Lemmas/FileSplit.lean.
+  (`FileSource::setup/next`), Model/CsvSplit.lean (`CsvSource::setup` range alignment).
+  Helper lemmas: Lemmas/Range.lean, Lemmas/FileSplit.lean, Lemmas/CsvSplit.lean.
 -/
 import NoirVerif.Lemmas.Range
 import NoirVerif.Lemmas.FileSplit
+import NoirVerif.Lemmas.CsvSplit
 
 /-! ## Integer ranges (`ParallelIteratorSource` over `Range<T>`) -/
 namespace Noir.Range
@@ -134,3 +136,52 @@ example : (List.range 3).flatMap (replicaLines [97,10,98,98,13,10,10,99] 3) = li
   file_lines_partition _ 3 (by decide)
 
 end Noir.FileSplit
+
+/-! ## CSV source (range alignment of `CsvSource::setup`; the `csv` parser itself is not modelled) -/
+namespace Noir.CsvSplit
+open Noir.FileSplit
+
+/-- **The aligned ranges tile `[header, size)`**: replica 0 starts right after the header (at 0 without
+    header), the last replica ends at the end of the file, consecutive ranges share their boundary, and no
+    range is reversed (so `(end - start) as usize`, csv.rs:350, never underflows). -/
+theorem csv_ranges_tile (bytes : List Nat) (hasHeaders : Bool) (n : Nat) (_hn : 1 ≤ n) :
+    (csvRange bytes hasHeaders n 0).1 = headerSize bytes hasHeaders ∧
+    (csvRange bytes hasHeaders n (n - 1)).2 = bytes.length ∧
+    (∀ i, i + 1 < n → (csvRange bytes hasHeaders n i).2 = (csvRange bytes hasHeaders n (i + 1)).1) ∧
+    (∀ i, i < n → (csvRange bytes hasHeaders n i).1 ≤ (csvRange bytes hasHeaders n i).2) := by
+  have hle := headerSize_le bytes hasHeaders
+  have hbl := body_length bytes hasHeaders
+  refine ⟨?_, ?_, ?_, ?_⟩
+  · rw [csvRange_eq]; simp [relRange]
+  · rw [csvRange_eq]; simp only [relRange, ne_eq, not_true_eq_false, if_false]; omega
+  · intro i hi
+    rw [csvRange_eq, csvRange_eq]
+    simp only [relRange_chain _ n i hi]
+  · intro i hi
+    rw [csvRange_eq]
+    have := relRange_ordered (body bytes hasHeaders) n i hi
+    simp only; omega
+
+/-- **Records are never split, duplicated or skipped; the header is excluded**: the byte ranges handed to
+    the per-replica `csv::Reader`s contain, concatenated in replica order, exactly the lines of the file
+    after the header — every range starts and ends at a line boundary. -/
+theorem csv_ranges_partition (bytes : List Nat) (hasHeaders : Bool) (n : Nat) (hn : 1 ≤ n) :
+    (List.range n).flatMap (fun i => lines (replicaBytes bytes hasHeaders n i))
+      = lines (body bytes hasHeaders) := by
+  rw [← segs_all (body bytes hasHeaders) n hn]
+  apply flatMap_congr'
+  intro i hi
+  rw [replicaBytes_eq, rel_lines _ n i (by simpa using hi)]
+
+/-- The same for records (quote-free content: a record is a non-empty line without its terminator). -/
+theorem csv_records_partition (bytes : List Nat) (hasHeaders : Bool) (n : Nat) (hn : 1 ≤ n) :
+    (List.range n).flatMap (fun i => records (replicaBytes bytes hasHeaders n i))
+      = records (body bytes hasHeaders) := by
+  unfold records
+  rw [← csv_ranges_partition bytes hasHeaders n hn, List.map_flatMap, List.filter_flatMap]
+
+/-! ### non-vacuity -/
+example : (List.range 3).map (csvRange [104,10, 97,10,98,98,13,10,10,99] true 3) = [(2, 8), (8, 8), (8, 10)] := by
+  simp [csvRange, headerSize, readLine, NL, List.range, List.range.loop]
+
+end Noir.CsvSplit
